@@ -54,6 +54,8 @@ type History struct {
 	// how the serials / timestamps of the records were generated (fields.go); informational, the values are in the events
 	Serials string `json:"serials,omitempty"`
 	Stamps  string `json:"stamps,omitempty"`
+	// a history of the volume family is a function of its compact description (volume.go); replays carry that
+	Vol *VolCase `json:"-"`
 }
 
 var otherTypes = []string{"USER_START", "USER_END", "SYSCALL", "USER_ACCT", "CRED_ACQ", "USER_CMD", "EXECVE", "USER_LOGIN", "CRED_REFR", "USER_AUTH"}
